@@ -1,5 +1,6 @@
 import PatVerif.Hex
 import PatVerif.Model.Structs
+import PatVerif.Model.Quicwire
 /-! Driver handlers of the `c04.*` operations: the codecs of `Model/Structs.lean`, printed in the
 harness's canonical form. -/
 namespace PatVerif.Drive.C04
@@ -114,6 +115,42 @@ def runObj {α : Type} (enc : α → Bytes) (dec : Bytes → Option α) (pv : α
   | some (outs, o) => some ("ok " ++ " ".intercalate outs ++ " | " ++ dump o.val)
   | none => none
 
+/-- what a *failed* `BatchedTokenRequest.Unmarshal` leaves in the object: nothing changes when the input is
+shorter than four bytes or the declared length is refused; otherwise the requests decoded before the failure -/
+def batchPartial (old : List BatchElem) (data : Bytes) : List BatchElem :=
+  if data.length < 4 then old else
+  let lo := Quicwire.consumeVarint data
+  if lo.2 < 0 ∨ lo.1 = 0 ∨ lo.1 > data.length - lo.2.toNat then old else
+  let win := (data.take (lo.2.toNat + lo.1)).drop lo.2.toNat
+  let rec go (fuel : Nat) (w : Bytes) (acc : List BatchElem) : List BatchElem :=
+    match fuel with
+    | 0 => acc.reverse
+    | fuel + 1 =>
+      if w.isEmpty then acc.reverse else
+      match batchElemCodec.dec w with
+      | some (e, rest) => go fuel rest (e :: acc)
+      | none => acc.reverse
+  go win.length win []
+
+/-- the generic batch request object: `Marshal` has a value receiver, so nothing is cached in the object -/
+def runObjB (ops : List String) : Option String :=
+  let rec go (v : List BatchElem) (ops : List String) (acc : List String) : Option (List String × List BatchElem) :=
+    match ops with
+    | [] => some (acc.reverse, v)
+    | op :: rest =>
+      if op = "m" then go v rest (("m=" ++ hxv (batchReqCodec.enc v)) :: acc)
+      else if op.startsWith "u:" then
+        match parseV (op.drop 2).toString with
+        | some b =>
+          match batchReqCodec.dec b with
+          | some (es, _) => go es rest ("u=1" :: acc)
+          | none => go (batchPartial v b) rest ("u=0" :: acc)
+        | none => none
+      else none
+  match go [] ops [] with
+  | some (outs, v) => some ("ok " ++ " ".intercalate outs ++ " | " ++ ",".intercalate (v.map fmtElem))
+  | none => none
+
 def dumpBasic (r : BasicReq) : String := s!"{r.keyId.toNat} {hxv r.blinded}"
 
 def handle (op : String) (a : List String) : Option String :=
@@ -202,6 +239,7 @@ def handle (op : String) (a : List String) : Option String :=
   | "c04.obj5", ops =>
     runObj req5Codec.enc (fun b => (req5Codec.dec b).map (·.1)) pvReq5
       (fun r => s!"{r.keyId.toNat} {hxList r.blinded}") ⟨0, []⟩ ops
+  | "c04.objB", ops => runObjB ops
   | "c04.objI", ops =>
     runObj innerCodec.enc (fun b => (innerCodec.dec b).map (·.1)) pvInner
       (fun r => s!"{r.keyId.toNat} {hxv r.blindedMsg} {hxv r.paddedOrigin}") ⟨0, [], []⟩ ops
